@@ -19,7 +19,7 @@ Init ==
         a == HonestAuth(Leaves(h), qs, h, n)
         free == (0..(2^h - 1)) \ Q
     IN
-    \E c \in {<<"none", 0, 0>>, <<"root", 0, 0>>, <<"extra", 0, 0>>}
+    \E c \in {<<"none", 0, 0>>, <<"root", 0, 0>>, <<"extra", 0, 0>>, <<"roothi", 0, 160>>, <<"roothi", 0, 248>>}   \* roothi: the root changed only above the digest width
              \cup {<<"qval", i, 0>> : i \in 1..Len(qs)}
              \cup {<<"qidx", i, j>> : i \in 1..Len(qs), j \in free}        \* index replaced by another in-range index
              \cup {<<"qalias", i, k>> : i \in 1..Len(qs), k \in {1, 2, 5}}  \* index replaced by an out-of-range alias idx + k * 2^height
@@ -42,7 +42,7 @@ Init ==
                   [] c[1] = "swapauth" -> [a EXCEPT ![c[2]] = a[c[2] + 1], ![c[2] + 1] = a[c[2]]]
                   [] c[1] = "extra" -> Append(a, Bad(999))
                   [] OTHER -> a
-      /\ root = IF c[1] = "root" THEN Bad(1000) ELSE RootOf(Leaves(h), h, n)
+      /\ root = IF c[1] = "root" THEN Bad(1000) ELSE IF c[1] = "roothi" THEN HiBits(RootOf(Leaves(h), h, n), c[3]) ELSE RootOf(Leaves(h), h, n)
       /\ MachineInit
 
 Next == MachineNext /\ UNCHANGED corrupt
